@@ -566,8 +566,16 @@ fn run_c05(ctx: &Ctx) -> i32 {
     let b3 = fault_batch("C05", &C05_MACHINES, n / 4, faulty::Mode::Totality, ctx.seed ^ 0x55, "seeded histories, all corruption kinds (twin refinement on healthy slots)");
     let rule = "one evaluation = one history on a real Geometric/Harmonic state and its real Arithmetic twin (fed ln x resp. 1/x in lock step): clean deliveries in 10 styles, a chaos task overwriting a record with +0/-0/negative/-subnormal/-MAX/-inf (every position x payload x style for tapes <= 8, seeded beyond), merges, forks, queries; distinct = distinct event-shape sequences (fault kind, position bucket, style; data erased); non-trivial = at least one fault or one merge of two non-empty deliveries";
     let assumptions = ["the twin receives x.ln() resp. 1/x computed in the element type; tolerance 16u(1+mean|t|) allows any equally valid re-association", "transform clauses have no schedule/fault dimension of their own: they are evaluated as lock-step invariants on every state the runs reach (DESIGN 5.1)"];
-    let new = report_all(ctx, &[&b1, &b2, &b3]);
-    write_partial(ctx, "fault_enumeration", &[&b1, &b2, &b3], new, rule, &assumptions, json!({"enumerated_cases": n_enum}), Some("non-positive record x position x delivery style x machine for tapes of length <= 8: exhaustive"));
+    // (4) long streams (count may cross 100 000: Student-t -> normal quantile) with one fault
+    let n_long: u64 = if thorough { 24 } else { 3 };
+    let seed = ctx.seed;
+    let b4: Batch<Art> = runner::run_batch("long streams (6*10^4 .. 2.5*10^5 records) carrying one fault", n_long * 4, false, move |j, stats| {
+        let m = C05_MACHINES[(j % 4) as usize];
+        let tr: Trace = dispatch_machine!(m, gen_fault_long, "C05", seed, j / 4);
+        trace_job(tr, (j % 4) as u32, stats, j == 0)
+    });
+    let new = report_all(ctx, &[&b1, &b2, &b3, &b4]);
+    write_partial(ctx, "fault_enumeration", &[&b1, &b2, &b3, &b4], new, rule, &assumptions, json!({"enumerated_cases": n_enum}), Some("non-positive record x position x delivery style x machine for tapes of length <= 8: exhaustive"));
     if new > 0 {
         1
     } else {
